@@ -203,7 +203,7 @@ def _annotation(fi: FuncInfo, name: str):
 def _check_handler(run: Run, ctx, m, cls, h: FuncInfo) -> None:
     """h(self, v, s): projection out of a literal v by selector s."""
     fa = ctx.analysis(h)
-    vp, sp = ("param", h.pos_params[1]), ("param", h.pos_params[2])
+    vp, sp = ("param", h.pos_params[-2]), ("param", h.pos_params[-1])  # (self,) value, selector
     sval = ("attr", sp, "value")
     # every read of s.value must be under isinstance(s, ast.Constant)
     n_uses = 0
